@@ -47,6 +47,22 @@ def expected_stdout(name, entry, via="run"):
     return out
 
 
+_BANNER = re.compile(rb"^ {2,}(Assembling|Running|Completed|Saved|Finished|Checking) [^\n]*\n", re.M)
+_HALTED = re.compile(rb"\n? *Halted\n$")
+
+
+def program_output(stdout):
+    """stdout of `lace run --minimal` without the CLI's own banner lines (their wording is not
+    part of any property): returns (program output bytes, halted banner seen)."""
+    # the "Completed" banner follows the program output directly, possibly on the same line
+    stdout = re.sub(rb" {2,}Completed target [^\n]*\n\Z", b"", stdout)
+    body = _BANNER.sub(b"", stdout)
+    halted = bool(_HALTED.search(body))
+    if halted:
+        body = _HALTED.sub(b"", body)
+    return body, halted
+
+
 def feat(entry):
     return ["-f", "stack"] if entry.get("stack") else []
 
@@ -75,8 +91,13 @@ def c03_cli(ctx, res, entries, limit):
         elif r.rc != e["ref"]["exit"]:
             res.violate("C03/cli/exit-status", "`lace run` exit status %s, reference %s (%s)"
                         % (r.rc, e["ref"]["exit"], e["ref"]["stop"]), detail)
-        elif r.out != want:
-            res.violate("C03/cli/stdout", "`lace run --minimal` stdout differs from the reference machine's output", detail)
+        else:
+            body, halted = program_output(r.out)
+            ref_out = e["output"].encode("utf-8")
+            # the HALT banner starts with a newline of its own: accept it attached to either side
+            if body not in (ref_out, ref_out + b"\n") and not (halted and body + b"\n" == ref_out):
+                detail["program_output_seen"] = body.decode("utf-8", "replace")[-600:]
+                res.violate("C03/cli/stdout", "`lace run --minimal` prints different program output than the reference machine", detail)
 
 
 # ------------------------------------------------------------------ C06
